@@ -111,7 +111,10 @@ func runCluster32(t *testing.T, r *hx.Rng, out *hx.Out, nextID func() string, ns
 					}
 				}
 			}
-			mk(r.Range(3, 5), resourcetypes.RawParams{"memory-request": int64(1 << 26), "cpu-request": 0.5})
+			for k := r.Range(3, 5); k > 0; k-- { // unbound workloads with different limits
+				mk(1, resourcetypes.RawParams{"memory-request": int64(1 << 26), "cpu-request": 0.5,
+					"cpu-limit": hx.Pick(r, 0.0, 1.0, 3.0), "memory-limit": hx.Pick(r, int64(0), 256<<20, 4<<30)})
+			}
 			emit("create")
 			ws := live()
 			if len(ws) >= 3 {
@@ -148,6 +151,10 @@ func runCluster32(t *testing.T, r *hx.Rng, out *hx.Out, nextID func() string, ns
 					"cpu-request": hx.Pick(r, 1.0, 0.5, 1.5, 0.3)}
 				if !bind && r.Chance(40) {
 					req["cpu-request"] = 0.0
+				}
+				if !bind {
+					req["cpu-limit"] = hx.Pick(r, 0.0, 2.0, 3.0)
+					req["memory-limit"] = hx.Pick(r, int64(0), 256<<20, 4<<30)
 				}
 				ch, err := cl.C.CreateWorkload(cl.Ctx(), &coretypes.DeployOptions{
 					Name: "app", Entrypoint: &coretypes.Entrypoint{Name: "web"}, Podname: "p32", Image: "img", Count: r.Range(1, 2),
